@@ -59,6 +59,10 @@ def int_events(rep, thorough):
             for start in range(0, top, step):
                 if w == 3 and not thorough:
                     continue
+                # the 3-byte space is covered completely in network order only (4096 blocks of 4096 values would be 1.5 GB of
+                # trace per byte order); the other orders get every 16th block and the blocks at the ends and in the middle
+                if w == 3 and o != '!' and (start // step) % 16 and start not in (0, top - step, top // 2 - step, top // 2):
+                    continue
                 c = ComposerBinary(byte_order=order_of(o))
                 c.compose_numeric_array(list(range(start, start + step)), w)
                 wire = bytes(c.composed_bytes)
@@ -326,7 +330,7 @@ def run(rep):
         kinds[e['k']] = kinds.get(e['k'], 0) + 1
     rep.extra['events_by_kind'] = kinds
     rep.exhaustive = False
-    rep.extra['exhaustive_spaces'] = 'all 1- and 2-byte values in four byte orders' + (', all 3-byte values' if thorough else '')
+    rep.extra['exhaustive_spaces'] = 'all 1- and 2-byte values in four byte orders' + (', all 3-byte values in network order, 1/16 of them in the other orders' if thorough else '')
     rep.rule = ('cases: every 1- and 2-byte value (3-byte: thorough tier; quick: boundary and sampled blocks) in four byte '
                 'orders as blocks of 256; boundary, random and out-of-range values of widths 1,2,3,4,8; every flags enum with '
                 'empty/single/full/random subsets and both shift halves; SSH and fixed-length mpints at bit lengths 8k-1, 8k, '
